@@ -364,14 +364,15 @@ def run_check(engine, tier='quick', seed=0, workers=None, digest_only=None, scal
                   encoding='utf-8') as f:
             json.dump(ev, f, indent=1, ensure_ascii=False, default=str)
             f.write('\n')
-        if tier != 'smoke' and REPO == '/repo':
+        if tier != 'smoke':
             # run log (one line per evidence-writing run against /repo; the evidence file only keeps the last)
             with open(os.path.join(VERIF, 'runs.jsonl'), 'a', encoding='utf-8') as f:
                 f.write(json.dumps({'property': engine.property_id, 'tier': tier, 'seed': seed,
                                     'evaluations': agg['evaluations'], 'distinct': len(agg['states']),
                                     'faults': sum(agg['faults'].values()), 'violations': len(reported),
                                     'known': len(known_hit), 'harness_errors': ev['coverage'].get('harness_errors'),
-                                    'wall_s': ev['wall_s'], 'stone_rev': _stone_rev(),
+                                    'wall_s': ev['wall_s'], 'stone_rev': _stone_rev(), 'repo': REPO,
+                                    'verif_rev': _verif_rev(),
                                     'utc': time.strftime('%Y-%m-%dT%H:%M:%SZ', time.gmtime())},
                                    default=str) + '\n')
     elif not os.environ.get('SIMSTONE_REPLAY_DIR'):
@@ -385,6 +386,15 @@ def run_check(engine, tier='quick', seed=0, workers=None, digest_only=None, scal
 
 
 _rev = []
+
+
+def _verif_rev():
+    try:
+        out = subprocess.run(['git', '-C', VERIF, 'describe', '--always', '--dirty'],
+                             capture_output=True, text=True, timeout=20)
+        return out.stdout.strip() or None
+    except Exception:
+        return None
 
 
 def _stone_rev():
